@@ -183,6 +183,27 @@ def build(tier="quick", seed=0):
         meta = (it.unbase(out[0].attrs.get("_source")), it.unbase(out[0].attrs.get("_classification")), it.unbase(out[0].attrs.get("_version")), it.unbase(out[0].attrs.get("_generated")) == it.unbase(r1.attrs["_generated"])) if out else None
         return res, [it.getattr_(it.getattr_(o, "_desc"), "name") for o in out], meta
 
+    # ---- a record that cannot be serialised is refused; the caller carries on with the same writer: what it writes afterwards still reads back
+    def th_refused():
+        D = it.call(RD, ["c14/refuse", [("path[]", "x"), ("varint", "n")]], {})
+        E = it.call(RD, ["c14/other", [("varint", "n")]], {})
+        bad = it.call(D, [], {"x": ["/a"], "n": 1})
+        bad.attrs["x"].base.append(pathlib.PurePosixPath("/not/converted"))  # (list.append on a typed list does not convert: the element is no field type value)
+        good = [it.call(D, [], {"x": ["/b"], "n": SInt(x)}), it.call(E, [], {"n": SInt(y)}), it.call(D, [], {"x": [], "n": 3})]
+        fp = AbsFile(it, mode="w")
+        w = it.call(jf.g["JsonfileWriter"], [fp], {})
+        try:
+            it.call(it.getattr_(w, "write"), [bad], {})
+            return [deep_obs(it, r) for r in good], "the unserialisable record was accepted"
+        except PyRaise:
+            pass
+        for r in good:
+            it.call(it.getattr_(w, "write"), [r], {})
+        return [deep_obs(it, r) for r in good], read_lines(fp.content())
+
+    pack.add(Obligation("C14.history[a write refused while serialising, then records of that type]", lambda tier: prove_paths("C14.history[a write refused while serialising, then records of that type]", th_refused,
+                        lambda p: judge_same(p) if p.kind == "raise" or not isinstance(p.value[1], str) else (False, p.value[1]), lambda m_, p: {"x": model_value(m_, x)}, allow_raise=None), replay=lambda w: {"call": "c14_refused", "args": {"x": w.get("x", 0) if isinstance(w.get("x", 0), int) else 0}}, functions=FU))
+
     def judge_plain(p):
         res, names, meta = p.value
         if meta != ("src-1", "cls-1", 1, True):
